@@ -417,6 +417,178 @@ class Checker:
             else:
                 eng.havoc_shape(st, p, ct, tag)
 
+    def call_sub(self, eng, a, st):
+        """positional atoms of a callee ($i, $i->field) -> caller values at this call"""
+        sub = {}
+        for i, arg in enumerate(a):
+            cti = ctype_of(arg)
+            if cti is None:
+                s_ = strip(arg)
+                if s_.get('kind') == 'UnaryOperator' and s_.get('opcode') == '&':
+                    cti = ctype_of(kids(s_)[0])
+            if cti:
+                pi, _ = self.carg(eng, arg, st)
+                if pi:
+                    shi = eng.shape(st, pi, cti)
+                    for fld in CONTAINER[cti]:
+                        sub['$%d->%s' % (i, fld)] = shi.f[fld]
+                        sub['(*$%d)->%s' % (i, fld)] = shi.f[fld]
+            elif not fe.is_float_type(strip(arg, casts=False)) and '*' not in fe.qual(strip(arg, casts=False)):
+                sub['$%d' % i] = eng.ev(arg, st)
+        return sub
+
+    def may_write(self, g, j, depth=0):
+        """may g store into the cells of its j-th (container) parameter?  syntactic, transitive, conservative"""
+        if not hasattr(self, '_mw'):
+            self._mw = {}
+        k = (g.name, j)
+        if k in self._mw:
+            return self._mw[k]
+        self._mw[k] = True          # cycles: assume it writes
+        if g.body is None or j >= len(g.params) or depth > 6:
+            return True
+        pid = g.params[j].get('id')
+
+        def mentions(n):
+            return any(x.get('kind') == 'DeclRefExpr' and (x.get('referencedDecl') or {}).get('id') == pid for x in fe.walk(n))
+        res = False
+        for n in fe.walk(g.body):
+            kd = n.get('kind')
+            if kd in ('BinaryOperator', 'CompoundAssignOperator') and (n.get('opcode') or '=').endswith('=') and n.get('opcode') not in ('==', '!=', '<=', '>='):
+                l = strip(kids(n)[0])
+                if l.get('kind') == 'ArraySubscriptExpr' and mentions(kids(l)[0]):
+                    res = True
+                elif l.get('kind') != 'ArraySubscriptExpr' and '*' in fe.qual(l) and mentions(kids(n)[1]):
+                    res = True          # a pointer into the container escapes into a variable
+            elif kd == 'UnaryOperator' and n.get('opcode') in ('++', '--'):
+                l = strip(kids(n)[0])
+                if l.get('kind') == 'ArraySubscriptExpr' and mentions(kids(l)[0]):
+                    res = True
+            elif kd == 'VarDecl' and '*' in ((n.get('type') or {}).get('qualType', '')) and kids(n) and mentions(kids(n)[0]):
+                res = True
+            elif kd == 'CallExpr':
+                cn2 = callee_name(n)
+                g2 = self.prog.resolve(g, cn2) if cn2 else None
+                for i2, arg in enumerate(call_args(n)):
+                    if not mentions(arg):
+                        continue
+                    q = fe.qual(strip(arg, casts=False))
+                    if '*' not in q:
+                        continue            # a cell value is passed, not storage
+                    if g2 is None or g2.body is None:
+                        if cn2 in ('printf', 'fprintf', 'xfree', 'free', 'strlen', 'strcmp'):
+                            continue
+                        res = True
+                    else:
+                        s_ = strip(arg)
+                        if s_.get('kind') == 'DeclRefExpr' and (s_.get('referencedDecl') or {}).get('id') == pid:
+                            if self.may_write(g2, i2, depth + 1):
+                                res = True
+                        else:
+                            res = True
+            if res:
+                break
+        self._mw[k] = res
+        return res
+
+    def write_summary(self, g):
+        """per exit state of g: (facts, cell stores on parameters) in g's positional atoms; None when not derivable"""
+        if not hasattr(self, '_ws'):
+            self._ws = {}
+            self._ws_active = set()
+        if g.name in self._ws:
+            return self._ws[g.name]
+        if g.name in self._ws_active:
+            return None
+        self._ws_active.add(g.name)
+        out = None
+        try:
+            eng = self.engines.get(g.name) or Engine(self, g, pre=sum((parse_pre(x) for x in self.contracts.get(g.name, {}).get('pre', [])), []), dom=self.dom).run()
+            out = []
+            for st in eng.exit_states:
+                if st.lossy or st.overflow:
+                    out = None
+                    break
+                cells = []
+                for (p, r, c) in st.iter_cells:
+                    m_ = re.match(r'^\$(\d+)$', p)
+                    if not m_:
+                        continue
+                    cells.append((int(m_.group(1)), r, c))
+                out.append((list(st.facts), dict(st.eqs) if isinstance(st.eqs, dict) else st.eqs, cells))
+        except fe.AnalysisBroken:
+            out = None
+        self._ws_active.discard(g.name)
+        self._ws[g.name] = out
+        return out
+
+    def cell_effects(self, eng, node, cn, a, st):
+        """effect of a call on the written-cell bookkeeping of storage allocated in the caller"""
+        if not st.fresh or cn is None:
+            return
+        touched = []
+        for j, arg in enumerate(a):
+            pj, ctj = self.carg(eng, arg, st)
+            if pj and any(v_['p'] == pj for v_ in st.fresh.values()):
+                touched.append((j, pj))
+        if not touched:
+            return
+        g = self.prog.resolve(eng.f, cn)
+        if g is None or g.body is None:
+            for j, pj in touched:
+                for v_ in st.fresh.values():
+                    if v_['p'] == pj:
+                        v_['unknown'] = True
+            return
+        writers = [(j, pj) for j, pj in touched if self.may_write(g, j)]
+        if not writers:
+            return
+        ws = self.write_summary(g)
+        sub = self.call_sub(eng, a, st)
+        facts = st.facts + eng.pre
+        must = None
+        exact = ws is not None
+        if ws is not None:
+            for fs, eqs, cells in ws:
+                # is this exit impossible at the call?  (one of its facts is provably false here)
+                dead = False
+                for f_ in fs:
+                    if any(x not in sub for x in f_.atoms()):
+                        continue
+                    if prove_nonneg(Poly.const(-1) - f_.subst(sub), facts, equalities=st.eqs):
+                        dead = True
+                        break
+                if dead:
+                    continue
+                cur = set()
+                for (j, r, c) in cells:
+                    ats = set()
+                    for q in ([r] if r is not None else []) + (list(c) if isinstance(c, tuple) else [c]):
+                        ats |= q.atoms()
+                    if any(x not in sub for x in ats):
+                        exact = False
+                        continue
+                    r2 = r.subst(sub) if r is not None else None
+                    c2 = tuple(q.subst(sub) for q in c) if isinstance(c, tuple) else c.subst(sub)
+                    cur.add((j, repr(r2), repr(c2), r2 is None))
+                    self._cell_objs = getattr(self, '_cell_objs', {})
+                    self._cell_objs[(j, repr(r2), repr(c2), r2 is None)] = (r2, c2)
+                if must is not None and must != cur:
+                    exact = False
+                must = cur if must is None else (must & cur)
+        wj = dict(writers)
+        for key in sorted(must or (), key=repr):
+            j = key[0]
+            if j not in wj:
+                continue
+            r2, c2 = self._cell_objs[key]
+            eng.note_cell(st, wj[j], r2, c2)
+        if not exact:
+            for j, pj in writers:
+                for v_ in st.fresh.values():
+                    if v_['p'] == pj:
+                        v_['unknown'] = True
+
     def auto_summary(self, g):
         """{param index: {field: Poly over g's positional atoms}} when every exit of g agrees and is exact"""
         if not hasattr(self, '_auto'):
